@@ -59,7 +59,11 @@ PROPS = {
         assumptions=["an order oracle is a deterministic function of the list it permutes"],
         runs=[dict(component="match", require="Corr.MatchCorr", require_vo="Corr/MatchCorr.vo",
                    n=dict(quick=2400, thorough=120000), shard=700, opts=dict(mode="c03"),
-                   evals=dict(M="mc_mismatches", V="c03_violations")),
+                   # M2: the heap model's prediction (results pairwise distinct fresh maps, given map intact; proved constant)
+                   # against the identity / mutation probes on Go's maps
+                   extra_require=("Corr.MatchHeapCorr",),
+                   evals=dict(M="mc_mismatches", M2="heap_alias_mismatches", V="c03_violations", NH="heap_alias_nontrivial"),
+                   counts=("NH",)),
               dict(component="matchconc", require="Corr.MatchCorr", require_vo="Corr/MatchCorr.vo", race=True,
                    n=dict(quick=150, thorough=3000), shard=700,
                    evals=dict(M="mc_mismatches", V="c03_violations"))],
